@@ -889,7 +889,43 @@ func (g *gen) expr(depth int) string {
 	return g.number()
 }
 
+// chain: a flat run of operands joined by random binary operators, with signs, no parentheses: the grouping of the
+// parsed tree is decided by the precedence / associativity table alone
+func (g *gen) chain() string {
+	n := 2 + g.r.Intn(7)
+	var b strings.Builder
+	for i := 0; i < n; i++ {
+		if i > 0 {
+			op := g.pick(binOps...)
+			b.WriteString(" " + op)
+			if g.r.Chance(1, 8) {
+				b.WriteString(g.binMod())
+			}
+			b.WriteString(" ")
+		}
+		if g.r.Chance(1, 5) {
+			b.WriteString(g.pick("-", "+", "- -", "-+"))
+		}
+		switch g.r.Pick(6, 3, 2, 1, 1) {
+		case 0:
+			b.WriteString(g.pick(identPool...))
+		case 1:
+			b.WriteString(g.number())
+		case 2:
+			b.WriteString(g.selectorHead() + g.modifiers(true))
+		case 3:
+			b.WriteString("(" + g.expr(1) + ")")
+		case 4:
+			b.WriteString(g.expr(1))
+		}
+	}
+	return b.String()
+}
+
 func (g *gen) source() string {
+	if g.r.Chance(1, 7) {
+		return g.chain()
+	}
 	s := g.expr(g.r.Pick(1, 2, 4, 5, 5, 4, 3) /* depth 0..6 */)
 	if g.r.Chance(1, 30) {
 		s = "# leading comment\n" + s
